@@ -60,11 +60,13 @@ K4 == P("PUSH", <<Ref(K1), Ref(K2)>>, <<>>)                   \* an instruction 
 K5 == Sq(<<P0("DROP"), Ref(K4)>>)                             \* a code block: K5 -> K4 -> K1, K2
 K6 == P("Pair", <<Ref(K2), IntE(7)>>, <<>>)                    \* a value that references K2
 K7 == Sq(<<>>)                                                 \* the empty sequence: a registered expression that is "empty"
+K8 == P("Pair", <<Ref(K2), Ref(K2)>>, <<>>)                   \* a body that uses the same constant twice
+K9 == P("Pair", <<Ref(K6), Ref(K8)>>, <<>>)                   \* a diamond: K9 -> K6 -> K2 and K9 -> K8 -> K2 (sharing inside an acyclic graph)
 Ghost == P0("nat")                                            \* never registered: its hash is unknown
 
 SubsetsUpTo(S, b) == {R \in SUBSET S : Cardinality(R) <= b}
 ScriptRegs == SubsetsUpTo({K1, K2, K3, K4, K5}, MaxReg)
-DataRegs   == SubsetsUpTo({K1, K2, K6, K7}, MaxReg)
+DataRegs   == SubsetsUpTo({K1, K2, K6, K7}, MaxReg) \cup {{K2, K8}, {K2, K6, K8, K9}, {K2, K8, K9}}
 
 PushPlain == P("PUSH", <<P0("int"), IntE(12345)>>, <<>>)
 ParamAlts == {P0("unit"), Ref(K1), P("pair", <<Ref(K1), P0("unit")>>, <<"%a">>), Ref(K3)}
@@ -85,12 +87,13 @@ Scripts == {Sq(<<P("parameter", <<pt>>, <<>>), P("storage", <<st>>, <<>>), P("co
               pt \in ParamAlts, st \in StoreAlts, cd \in CodeAlts}
 
 A0 == {IntE(1), Ref(K2), Ref(K6), Ref(K7), Ref(Ghost)}
+Shared == {Ref(K8), Ref(K9), P("Pair", <<Ref(K8), Ref(K2)>>, <<>>), Sq(<<Ref(K9), Ref(K9)>>)}
 A1 == A0 \cup {P("Pair", <<x, y>>, <<>>) : x \in A0, y \in A0}
          \cup {Sq(<<x, y>>) : x \in A0, y \in A0}
          \cup {P("Some", <<x>>, <<"%s">>) : x \in A0}
          \cup {Sq(<<>>), HashStr(K2), Lit("constant")}
 A2 == A1 \cup {P("Elt", <<x, y>>, <<>>) : x \in A0, y \in A1 \ A0}
-DataExprs == IF Wide THEN A2 ELSE A1
+DataExprs == (IF Wide THEN A2 ELSE A1) \cup Shared
 
 \* ---------------- the machine ----------------
 VARIABLES fam, reg, script,        \* the input
